@@ -58,6 +58,10 @@ pub enum StateFSMError {
     #[error("underflow is occurred while calculating the new position of a {2} slider for resolved fold {0:?} and current subtrace len {1}'")]
     FoldLenUnderflow(ResolvedFold, TracePos, MergeCtxType),
 
+    /// Errors occurred when a next instruction goes back through more iterations of a fold than were started.
+    #[error("next of a fold over a stream is met more times on the way back than iterations were started")]
+    FoldBackTraversalExhausted,
+
     /// Errors bubbled from DataKeeper.
     #[error(transparent)]
     KeeperError(#[from] KeeperError),
